@@ -9,10 +9,10 @@
      3. normalize_text_is_spec, normalize_to_text_is_spec, parsed_meets_hyps
      4. parsed_five_of_text, parsed_normal_text *)
 From Coq Require Import List NArith Bool Lia ZifyBool ZifyN Arith.
-From UP Require Import Base.Chars Base.Regex Model.Uri Model.Common Model.Normalize Model.Recompose Model.Parse
+From UP Require Import Base.Chars Base.Regex Model.Uri Model.Common Model.Normalize Model.Recompose Model.Ip4 Model.Parse
   Spec.NormalWf Spec.Split Spec.Unparse Proofs.NormalizeProofs Proofs.NormalizeLink Proofs.DotSegments
   Proofs.ParseWfStep Proofs.ParseWf Proofs.ParseSplit.
-From UP Require Spec.Normal Spec.Resolve Proofs.ResolveProofs.
+From UP Require Spec.Normal Spec.Resolve Proofs.ResolveProofs Proofs.Ip4Proofs.
 Import ListNotations.
 Local Open Scope N_scope.
 
@@ -202,3 +202,189 @@ Proof.
     rewrite (Eform false h). rewrite (auth_normal_parts ui h false po Hui Hh Hpo (conj H58 H91)).
     destruct ui; reflexivity.
 Qed.
+
+(* ================================================================ 3. the five components, and the text *)
+Lemma rp_path_text u : RP.path_text u = path_text u.
+Proof. unfold RP.path_text, path_text_of, path_text. rewrite join_text_slash. reflexivity. Qed.
+
+Lemma is_some_t_some (o : option text) : Resolve.is_some_t o = is_some o.
+Proof. destruct o; reflexivity. Qed.
+
+Lemma auth_text_is_some u : Resolve.is_some_t (RP.auth_text u) = is_host_set u.
+Proof. unfold RP.auth_text. destruct (is_host_set u); reflexivity. Qed.
+
+(* The hypotheses of the theorem, as one boolean; every parsed object meets them (parsed_meets_hyps):
+     uri_pct_wf u   every "%" of user info, registered name, path segments, query and fragment starts a
+                    triplet "%" HEXDIG HEXDIG                                         (Spec/NormalWf.v)
+     RP.wf u        no "/" inside a segment; with a host the absolutePath flag is off; a host-less path
+                    neither prints as "//..." nor (rootless) begins with an empty segment; no NUL in
+                    the scheme                                                  (Proofs/ResolveProofs.v)
+     auth_wfb u     the authority text splits into the object's own user info, host and port *)
+Definition text_hyps (u : uri) : bool := uri_pct_wf u && RP.wf u && auth_wfb u.
+
+Theorem normalize_text_is_spec u : text_hyps u = true -> relative_ref u = false ->
+  RP.five_of_uri (normalize 63 u)
+  = Normal.guard_normal (RP.five_of_uri u) (Normal.five_normal (RP.five_of_uri u)).
+Proof.
+  intros H Hrel. unfold text_hyps in H. apply andb_prop in H. destruct H as [H Ha].
+  apply andb_prop in H. destruct H as [Hp Hw].
+  pose proof Hp as Hp'. unfold uri_pct_wf in Hp'.
+  apply andb_prop in Hp'. destruct Hp' as [Hp' Hfr]. apply andb_prop in Hp'. destruct Hp' as [Hp' Hqu].
+  apply andb_prop in Hp'. destruct Hp' as [_ Hps].
+  assert (RP.path_text (normalize 63 u)
+          = Normal.guard_path (Normal.is_rootless (RP.path_text u))
+              (Resolve.is_some_t (omap Normal.auth_normal (RP.auth_text u)))
+              (Normal.path_normal (Resolve.is_some_t (scheme u)) (Resolve.is_some_t (RP.auth_text u))
+                 (RP.path_text u))) as Epath.
+  { rewrite !rp_path_text.
+    assert (Resolve.is_some_t (omap Normal.auth_normal (RP.auth_text u)) = is_host_set u) as E1
+      by (rewrite <- auth_text_is_some; destruct (RP.auth_text u); reflexivity).
+    rewrite E1, is_some_t_some, auth_text_is_some.
+    apply path_link_closed.
+    - exact Hps.
+    - apply forallb_noslash_no_slash. exact (RP.wf_noslash u Hw).
+    - intros Hab Hh. pose proof (RP.wf_rootless_first u Hw Hh Hab) as Hf. unfold RP.first_nonempty in Hf.
+      destruct (pathSegs u) as [|[|c s] r]; [exact I|discriminate Hf|exact I].
+    - exact (RP.wf_host_abs u Hw).
+    - exact Hrel. }
+  unfold RP.five_of_uri at 1.
+  rewrite scheme_link, (auth_link u Hp Ha), Epath, (query_link u Hqu), (fragment_link u Hfr).
+  reflexivity.
+Qed.
+
+(* ---- the text uriToString writes ---- *)
+(* the octets of an IPv4 host print as the host text (uriToString prints the octets, not the text) *)
+Definition ip4_rendered (u : uri) : bool :=
+  match ip4 u with
+  | Some o => Resolve.text_eqb (concat (ip4_pieces o 0)) (match hostText u with Some t => t | None => [] end)
+  | None => true
+  end.
+
+(* the pieces uriToString copies for the host *)
+Definition host_pieces (u : uri) : list text :=
+  match ip4 u, ip6 u, ipFuture u, hostText u with
+  | Some o, _, _, _ => ip4_pieces o 0
+  | None, Some b, _, _ => [[91]] ++ ip6_byte_pieces b 0 ++ [[93]]
+  | None, None, Some t, _ => [[91]; t; [93]]
+  | None, None, None, Some t => [t]
+  | None, None, None, None => []
+  end.
+
+(* uriToString's text is the RFC 5.3 recomposition of the five components whenever the host is printed as
+   [host_written] gives it *)
+Lemma to_text_recompose_host u : concat (host_pieces u) = RP.host_written u ->
+  to_text u = Resolve.recompose (RP.five_of_uri u).
+Proof.
+  intros Hh. unfold to_text, pieces, Resolve.recompose, RP.five_of_uri, RP.auth_text, RP.path_text, path_text_of.
+  cbn [Resolve.f_scheme Resolve.f_auth Resolve.f_path Resolve.f_query Resolve.f_frag].
+  fold (host_pieces u). rewrite <- Hh.
+  rewrite !concat_app. rewrite !RP.concat_opt_pieces. cbn [concat app].
+  f_equal.
+  assert (forall (o : option text) c, match o with Some t => c :: t ++ [] | None => [] end
+                                      = match o with Some t => c :: t | None => [] end) as Etail
+    by (intros o c; destruct o; rewrite ?app_nil_r; reflexivity).
+  rewrite !Etail. rewrite <- !app_assoc.
+  f_equal.
+  { destruct (is_host_set u); [|reflexivity]. cbn [concat]. f_equal.
+    rewrite !concat_app. rewrite !RP.concat_opt_pieces. cbn [concat app]. rewrite Etail.
+    reflexivity. }
+  f_equal.
+  destruct (absolutePath u || negb match pathSegs u with [] => true | _ :: _ => false end && is_host_set u); reflexivity.
+Qed.
+
+Lemma host_pieces_normalized u : uri_pct_wf u = true -> auth_wfb u = true -> ip6 u = None ->
+  ip4_rendered u = true ->
+  concat (host_pieces (normalize 63 u)) = RP.host_written (normalize 63 u).
+Proof.
+  intros Hwf Ha H6 H4. rewrite (normalize_full_fields u Hwf).
+  destruct u as [sc ui ht i4 i6 ifu po ps qu fr ab ow].
+  unfold auth_wfb, ip4_rendered in *. unfold host_pieces, RP.host_written, is_regname.
+  cbn [scheme userInfo hostText ip4 ip6 ipFuture portText pathSegs query fragment absolutePath owner] in *.
+  subst i6.
+  destruct ht as [h|].
+  2:{ unfold is_host_set in Ha. cbn [hostText ip4 ip6 ipFuture] in Ha.
+      destruct i4, ifu; try discriminate Ha. reflexivity. }
+  apply andb_prop in Ha. destruct Ha as [_ Hk].
+  destruct i4 as [o|], ifu as [f|]; try discriminate Hk.
+  - apply text_eqb_eq in H4. cbn [is_some negb andb omap]. exact H4.
+  - cbn [omap concat app]. reflexivity.
+  - cbn [is_some negb andb omap concat app]. rewrite app_nil_r. reflexivity.
+Qed.
+
+Theorem normalize_to_text_is_spec u : text_hyps u = true -> ip4_rendered u = true -> ip6 u = None ->
+  relative_ref u = false ->
+  to_text (normalize 63 u)
+  = Resolve.recompose (Normal.guard_normal (RP.five_of_uri u) (Normal.five_normal (RP.five_of_uri u))).
+Proof.
+  intros H H4 H6 Hrel. rewrite <- (normalize_text_is_spec u H Hrel).
+  apply to_text_recompose_host. unfold text_hyps in H. apply andb_prop in H. destruct H as [H Ha].
+  apply andb_prop in H. destruct H as [Hp _]. exact (host_pieces_normalized u Hp Ha H6 H4).
+Qed.
+
+(* ---- every parsed object meets the hypotheses ---- *)
+Lemma digit_chars_ip4_text st : Ip4Proofs.stack_ok st = true -> is_ip4_text (Ip4Proofs.digit_chars st) = true.
+Proof.
+  intros H. apply Ip4Proofs.stack_ok_digits in H. unfold is_ip4_text, Ip4Proofs.digit_chars.
+  induction H as [|d r Hd _ IH]; [reflexivity|]. cbn [map forallb]. rewrite IH. rewrite andb_true_r.
+  clear - Hd. unfold is_digit, in_range. lia.
+Qed.
+
+Lemma parse_ip4_is_ip4_text h o : parse_ip4 h = Some o -> is_ip4_text h = true.
+Proof.
+  intros H. apply Ip4Proofs.parse_ip4_sound in H.
+  destruct H as [s1 [s2 [s3 [s4 [H1 [H2 [H3 [H4 [_ Et]]]]]]]]]. subst h.
+  unfold Ip4Proofs.quad_text, is_ip4_text.
+  repeat (rewrite forallb_app; cbn [forallb]).
+  fold (is_ip4_text (Ip4Proofs.digit_chars s1)). fold (is_ip4_text (Ip4Proofs.digit_chars s2)).
+  fold (is_ip4_text (Ip4Proofs.digit_chars s3)). fold (is_ip4_text (Ip4Proofs.digit_chars s4)).
+  rewrite !digit_chars_ip4_text by assumption. reflexivity.
+Qed.
+
+Lemma parsed_auth_wfb u : parsed_wf parse_ip4 ip6_bytes u -> auth_wfb u = true.
+Proof.
+  intros (Hc & Hf & _ & _). destruct Hc as (_ & Hu & Hh & Hpo & _). destruct Hf as [_ Hf].
+  unfold auth_wfb. destruct (hostText u) as [h|] eqn:Eh.
+  2:{ destruct Hf as (E4 & E6 & Ef). unfold is_host_set. rewrite Eh, E4, E6, Ef. reflexivity. }
+  destruct Hf as [_ Hf].
+  assert (opt_avoidb [64] (userInfo u) = true) as Aui.
+  { destruct (userInfo u) as [t|]; [|reflexivity]. destruct Hu as [Hu _].
+    exact (class_avoid is_userinfo_char [64] t eq_refl Hu). }
+  assert (opt_avoidb [64] (portText u) = true) as Apo.
+  { destruct (portText u) as [t|]; [|reflexivity]. exact (class_avoid is_digit [64] t eq_refl Hpo). }
+  rewrite Aui, Apo. cbn [andb]. rewrite andb_true_r.
+  destruct (ip6 u) as [b|] eqn:E6; destruct (ipFuture u) as [f|] eqn:Ef; cbn [is_some] in Hh.
+  - contradiction.
+  - destruct Hf as (E4 & _ & Hv & _). rewrite E4, Hv.
+    rewrite (class_avoid is_ip6_char [64] h eq_refl Hh : avoidb [64] h = true).
+    rewrite (class_avoid is_ip6_char [93] h eq_refl Hh : avoidb [93] h = true). reflexivity.
+  - destruct Hf as (E4 & Efh & Hv). subst f. rewrite E4, Hv. rewrite text_eqb_refl.
+    rewrite (class_avoid is_lit_char [64] h eq_refl Hh : avoidb [64] h = true).
+    rewrite (class_avoid is_lit_char [93] h eq_refl Hh : avoidb [93] h = true). reflexivity.
+  - destruct Hh as [Hh _].
+    rewrite (class_avoid is_regname_char [64] h eq_refl Hh : avoidb [64] h = true). cbn [andb].
+    destruct (ip4 u) as [o|] eqn:E4.
+    + symmetry in Hf. exact (parse_ip4_is_ip4_text h o Hf).
+    + rewrite (class_avoid is_regname_char [58] h eq_refl Hh : avoidb [58] h = true).
+      rewrite (class_avoid is_regname_char [91] h eq_refl Hh : avoidb [91] h = true). reflexivity.
+Qed.
+
+Lemma parsed_ip4_rendered u : parsed_wf parse_ip4 ip6_bytes u -> ip4_rendered u = true.
+Proof.
+  intros (_ & Hf & _ & _). destruct Hf as [_ Hf]. unfold ip4_rendered.
+  destruct (ip4 u) as [o|] eqn:E4; [|reflexivity].
+  destruct (hostText u) as [h|].
+  - destruct Hf as [_ Hf]. destruct (ip6 u), (ipFuture u); try contradiction;
+      try (discriminate (proj1 Hf)).
+    symmetry in Hf. rewrite (Ip4Proofs.parse_ip4_render h o Hf). apply text_eqb_refl.
+  - destruct Hf as [Hf _]. discriminate Hf.
+Qed.
+
+Lemma parsed_wf_meets_hyps u : parsed_wf parse_ip4 ip6_bytes u -> text_hyps u = true /\ ip4_rendered u = true.
+Proof.
+  intros H. split; [|exact (parsed_ip4_rendered u H)]. unfold text_hyps.
+  rewrite (proj1 (parsed_wf_normalization u H)), (proj1 (parsed_wf_resolution u H)), (parsed_auth_wfb u H).
+  reflexivity.
+Qed.
+
+Theorem parsed_meets_hyps s u : parse s = POk u -> text_hyps u = true /\ ip4_rendered u = true.
+Proof. intros H. exact (parsed_wf_meets_hyps u (parse_wf s u H)). Qed.
